@@ -238,10 +238,36 @@ def fam_pairs(arg):
     return acc.result()
 
 
+def check_branch_end(case, acc):
+    body = chains.build_branch_end(case['spec'])
+    src = ast.source(body)
+    c2 = dict(case, source=src)
+    model = parse_or_violation(src, c2, acc)
+    if model is None:
+        return
+    n = static_check(model, c2, acc)
+    if n >= 3:
+        acc.nontrivial += 1
+    acc.outcome(n)
+    dynamic_check(body, model, c2, acc, 2)
+
+
+def fam_branch_end(arg):
+    acc = Acc('branch_end')
+    for spec in arg:
+        acc.cases += 1
+        check_branch_end({'spec': spec}, acc)
+    if arg:
+        acc.sample({'spec': arg[len(arg) // 2], 'source': ast.source(chains.build_branch_end(arg[len(arg) // 2]))})
+    return acc.result()
+
+
 def families(tier):
     load_impl()
     nb = len(pair_bodies())
+    be = chains.branch_end_specs()
     return [
+        Family('branch_end', fam_branch_end, split(be, 32), 'an if chain (if / if-else / if-elif / if-elif-else) inside a loop (while, for, counter while) where every branch independently ends in nothing / break / continue / return; x 2 scopes x 3 surroundings; static + dynamic (bound 2)', expected=len(be)),
         chain_family(tier),
         Family('pairs', fam_pairs, [(tier, r) for r in split(list(range(nb)), 48)],
                f'every ordered pair of {nb} depth <= 2 chain bodies x placements {list(PLACEMENTS if tier == "thorough" else QUICK_PLACEMENTS)}',
@@ -249,7 +275,7 @@ def families(tier):
     ]
 
 
-_CHECKS = {'chain': check_chain, 'pairs': check_pair}
+_CHECKS = {'chain': check_chain, 'pairs': check_pair, 'branch_end': check_branch_end}
 
 
 def replay(family, case):
